@@ -2190,6 +2190,16 @@ get_make_property(CPPMakeProperty *make_property, CPPStructType *struct_type, CP
  */
 MakeSeqIndex InterrogateBuilder::
 get_make_seq(CPPMakeSeq *make_seq, CPPStructType *struct_type) {
+  // As for properties: re-home the identifier into the scope of the class we
+  // were given, so that each instantiation of a class template gets a
+  // sequence of its own instead of sharing the first one's.
+  CPPScope *scope = struct_type->get_scope();
+  if (make_seq->_ident->_native_scope != scope) {
+    make_seq = new CPPMakeSeq(*make_seq);
+    make_seq->_ident = new CPPIdentifier(*make_seq->_ident);
+    make_seq->_ident->_native_scope = scope;
+  }
+
   string make_seq_name = make_seq->get_local_name(&parser);
 
   // First, check to see if it's already there.
